@@ -1910,12 +1910,27 @@ func specTellable(m LogWriter) bool {
 //@   loop 1 invariant [C07.dedupe-idx] 1 <= i && i <= len(x) && 0 <= j && j < i
 
 
-// ---- generated by /verif/tools/gen_auto.py: synthesized contracts for the no-panic sweep of printImpl's call tree
-//@ func convertLevelToLogSlog
+// in-package serializers reached through the ObjectSerializer interface (recursion with serializeAttrs)
+//@ func (*kvp).SerializeValueTo
+//@   props C02
+//@   auto
+
+//@ func (*gkvp).SerializeValueTo
+//@   props C02
+//@   auto
+
+//@ func (Attrs).SerializeValueTo
 //@   props C02
 //@   auto
 
 //@ func (*Entry).fromCtx
+//@   props C02 C07
+//@   auto
+//@   requires !isnil(ctx)
+
+
+// ---- generated by /verif/tools/gen_auto.py: synthesized contracts for the no-panic sweep of printImpl's call tree
+//@ func convertLevelToLogSlog
 //@   props C02
 //@   auto
 
